@@ -189,6 +189,87 @@ def stage_stale_snapshot(chk, pid, cfg, keys, build_universe):
     return 0
 
 
+def stage_full_block(chk, pid, keys):
+    """The pending transactions just fit into one block (within a few hundred bytes of MAX_BLOCK_SIZE) and pay fees: the block the miner
+    assembles from them and finds passes the node's own validation, pays subsidy + the fees of what it contains, is adopted, stored and
+    broadcast (C12: 'pending transactions (fitting in one block)').  Facts judged by TLC (TraceFacts)."""
+    import skepticoin.params as params
+    import skepticoin.consensus as c
+    from harness import node_drv, indep
+    from checks.store import cb as cbd, tx as txd, blk as blkd
+    from skepticoin.datatypes import Block, BlockHeader
+    cfg_b = sk.Cfg(period=1000, timespan=4, initial_subsidy=10 ** 9, halving=10 ** 6, max_money=21 * 10 ** 14)
+    sk.apply_cfg(cfg_b)
+    facts = []
+    try:
+        w = sk.World(cfg_b, keys, tag=b"full")
+        g = w.make_genesis(ts=5000)
+        b1 = w.concretise(dict(blkd(1, 0, 1, [cbd(1, 1, cfg_b.subsidy(1), k=1)]), ts=5001))
+        limit = params.MAX_BLOCK_SIZE
+        total = cfg_b.subsidy(0)
+        probe1 = len(indep.enc_tx(w.concretise_tx(dict(txd(901, [(0, 0, 1)], [(1, 2)] * 1 + [(total - 1 - 7000, 1)]), _owner={0: 1}))))
+        probe2 = len(indep.enc_tx(w.concretise_tx(dict(txd(902, [(0, 0, 1)], [(1, 2)] * 2 + [(total - 2 - 7000, 1)]), _owner={0: 1}))))
+        per = probe2 - probe1
+        n = (limit - 1150 - probe1) // per + 1                      # leaves about 1 150 bytes for the reward transaction, the header and a small spend
+        big = w.concretise_tx(dict(txd(903, [(0, 0, 1)], [(1, 2)] * n + [(total - n - 7000, 1)]), _owner={0: 1}))       # fee 7 000
+        small = w.concretise_tx(dict(txd(904, [(10, 0, 1)], [(cfg_b.subsidy(1) - 5000, 3)]), _owner={0: 1}))          # fee 5 000
+        run = node_drv.NodeRun(w, g, peers=["p", "q"], tid=970000, clock0=5002)
+        try:
+            run.deliver_block("p", b1)
+            run.deliver_tx("p", big)
+            run.deliver_tx("p", small)
+            pool = run.node.pool()
+            if len(pool) != 2:
+                chk.notes.append("full block: the pool took %d of the 2 transactions; stage skipped" % len(pool))
+                return 0
+            run.miner()
+            import skepticoin.mining as mining_
+            mining_.print = lambda *a, **k: None
+            found, raised, blk_ = False, "", None
+            for nonce in range(1, 300):
+                if run.mine_request(nonce) is None:
+                    raised = run.last_error
+                    break
+                mw = run.mw
+                kind_, payload = mw.send_queues[0].items[-1]
+                summary, height = payload
+                sh = c.construct_summary_hash(summary, height)
+                n_before = len(run.node.chain().block_by_hash)
+                run.node.use_store()
+                try:
+                    mw.handle_scrypt_output_message(0, sh)
+                except Exception as e:
+                    raised = repr(e)[:200]
+                    break
+                if len(run.node.chain().block_by_hash) > n_before:
+                    found = True
+                    blk_ = run.node.chain().head()
+                    break
+            size_all = len(indep.enc_tx(big)) + len(indep.enc_tx(small))
+            what = "pending transactions of %d bytes in total (limit %d)" % (size_all, limit)
+            facts.append({"clause": "C12:found_block_fails_own_full_validation", "holds": not raised, "what": what + ": " + raised})
+            if found:
+                ids_ = [indep.txid(t_) for t_ in blk_.transactions[1:]]
+                fees_ = sum(f_ for (t_, f_) in ((big, 7000), (small, 5000)) if indep.txid(t_) in ids_)
+                paid = sum(o.value for o in blk_.transactions[0].outputs)
+                facts.append({"clause": "C12:reward_is_not_exactly_subsidy_plus_fees", "holds": paid == cfg_b.subsidy(2) + fees_, "what": what + ": reward %d, fees of the included %d" % (paid, fees_)})
+                facts.append({"clause": "C12:candidate_does_not_contain_the_pending_transactions", "holds": len(ids_) == 2, "what": what + ": %d of 2 included" % len(ids_)})
+                rows = {b_.hash() for b_ in run.node.store_rows()}
+                facts.append({"clause": "C12:found_block_not_written_to_store", "holds": blk_.hash() in rows, "what": what})
+                chk.extra["full_block"] = {"block_bytes": len(indep.enc_block(blk_)), "limit": limit, "transactions": len(blk_.transactions)}
+            chk.case(("full_block",), nontrivial=found)
+        finally:
+            run.close()
+    finally:
+        sk.restore_cfg()
+    if facts:
+        v, r = tracecheck.run("TraceFacts", facts, {}, ids=[1], workers=1, timeout=300)
+        chk.traces_validated += 1
+        for (line, clause) in tlc.tagged(r, "FINDING"):
+            chk.violation(clause, {"full_block": facts[line - 1]["what"]}, {"clause": clause, "how": "full_block"})
+    return 0
+
+
 def stage_adversarial(chk, quick, rng, pid, cfg, keys, build_universe, make_x, what):
     """Model-free: a relayed block X that fails full validation, with one mining round of the node's own miner placed at every call-level
     stop of the delivery (snapshot there, found block handled there or after the delivery).  P: X is neither in the served chain state
